@@ -123,6 +123,36 @@ def step (_ : Unit) (ws : List String) : Unit × String :=
       let r := handshake a fs
       "sent=" ++ ",".intercalate (r.1.map showSent) ++ " outcome=" ++ showOutcome r.2
     | _, _ => "bad-op"
+  -- property-oracle ops (spec-backed): the answer is what the PROPERTY demands; the theorems of Proofs/C20.lean
+  -- say the model gives the same
+  | ["verify", c, e] => match parseDocCfg c, parseBool e with            -- the documented table itself
+    | some c, some e => match Spec.documented c e with
+      | some true => "verify"
+      | some false => "noverify"
+      | none => "missing"
+    | _, _ => "bad-op"
+  | ["badfile", ca, cert, key] => match parseFileSt ca, parseFileSt cert, parseFileSt key with   -- C20_bad_files_error
+    | some ca, some cert, some key =>
+      match setupTLSConfig { cfg := none, enableHostVerification := true, ca := ca, cert := cert, key := key } with
+      | .ok _ => "config"
+      | .error _ => "error"
+    | _, _, _ => "bad-op"
+  | "hsnoauth" :: fs => match fs.mapM parseFrame with                    -- C20_no_auth_no_session
+    | some fs =>
+      let r := handshake none fs
+      (if r.2 = .ready then "ready" else "refused") ++ " credentials-sent=" ++
+        bit (r.1.any (fun x => match x with | .authResponse _ => true | _ => false))
+    | none => "bad-op"
+  | ["disclose", a, c] => match parseAuth a, parseHex c with             -- C20_only_approved, C20_plain_token
+    | some a, some c =>
+      let r := handshake a [.supported, .authenticate c, .authSuccess]
+      match r.1.filterMap (fun x => match x with | .authResponse t => some t | _ => none) with
+      | [] => "none"
+      | t :: _ => "token:" ++ toHex t
+    | _, _ => "bad-op"
+  | ["snihost", h, p] => match parseHex h, parseHex p with               -- C20_server_name_of_host
+    | some h, some p => toHex (tlsConfigForAddr false [] (joinHostPort h p)).1
+    | _, _ => "bad-op"
   | ["doc", _, c, e] => match parseDocCfg c, parseBool e with
     | some c, some e => match Spec.documented c e with
       | some true => "verify"
